@@ -66,6 +66,15 @@ def gen_cases(tier, seed):
         if any(f == 0 for f in flow.values()):
             continue
         cases.append({"kind": "peel", "spec": gen.spec(nodes, edges, eattr={e: {"flow": f} for e, f in flow.items()}), "planted": len(planted)})
+        if i % 4 == 0:
+            # the same planted paths with weights that are not exactly representable (0.1, 0.3, 1/3 ...): the flow is their float sum, conserved
+            # only up to round-off; paths must still be source-to-sink paths and add up to the flow within 1e-9
+            unit = rng.choice([0.1, 0.1, 1 / 3, 0.7])
+            fl2 = {e: 0.0 for e in flow}
+            for p_, w_ in planted:
+                for e in zip(p_, p_[1:]):
+                    fl2[e] += w_ * unit if not isinstance(w_, float) else w_ * unit
+            cases.append({"kind": "peel", "spec": gen.spec(nodes, edges, eattr={e: {"flow": f} for e, f in fl2.items()}), "planted": len(planted), "approx": True})
     if tier == "thorough":
         for nodes, edges in small_scope_graphs(3, True):
             cases.append({"kind": "hist", "spec": gen.spec(nodes, edges, eattr={e: {"flow": (hash(e) % 7)} for e in edges}), "rs": "x", "nq": 0, "full": True})
@@ -248,6 +257,8 @@ def run_peel(case, viol, obs):
     flow = {(u, v): d["flow"] for u, v, d in G.edges(data=True)}
     r = M.safe_call(st.decompose_using_max_bottleneck, "flow")
     obs["c17.peelings"] += 1
+    if case.get("approx"):
+        obs["c17.peelings_inexact_floats"] += 1
     desc = f"flows {sorted((str(e), f) for e, f in flow.items())}"
     if r[0] != "ok":
         viol.append({"sig": f"C17/peel-raises/{r[1]}", "msg": f"{r[2]}; {desc}"}); return None, False
@@ -265,12 +276,13 @@ def run_peel(case, viol, obs):
         H = nx.DiGraph([e for e in G.edges])
         best = max(min(resid[e] for e in zip(q, q[1:])) for q in ref.st_paths(G))
         bn = min(resid[e] for e in pe)
-        if bn != w or w != best:
+        tol = 1e-9 if case.get("approx") else 0
+        if abs(bn - w) > tol or w < best - tol:
             viol.append({"sig": "C17/peel-not-max-bottleneck", "msg": f"path {p} weight {w}, its residual bottleneck {bn}, best possible {best}; {desc}"}); break
         for e in pe:
             resid[e] -= w
     else:
-        bad = {e: x for e, x in resid.items() if x != 0}
+        bad = {e: x for e, x in resid.items() if abs(x) > (1e-9 if case.get("approx") else 0)}
         if bad:
             viol.append({"sig": "C17/peel-sums-differ-from-flow", "msg": f"residual after peeling {bad}; {desc}"})
     # the caller's graph must still carry the original flow
